@@ -929,17 +929,39 @@ func c16GenEstablish(r *Rng, store *[]c16Obj) (c16Step, string) {
 		}
 	}
 	if len(s.Objs) == 0 {
-		return s, "trivial/est/empty"
+		return s, "trivial/empty"
 	}
-	d := ""
+	role := "inactive"
+	if s.Control {
+		role = "active"
+	}
+	f := "clean"
+	if fk != "none" {
+		f = "faulty"
+	}
 	if dup {
-		d = "/dup"
+		return s, fmt.Sprintf("est/%s/duplicate-object", role)
 	}
-	c := "seq"
-	if s.Conc > 1 {
-		c = "conc"
+	return s, fmt.Sprintf("est/%s/pre=%s/%s", role, c16Focus(states), f)
+}
+
+// c16Focus names the scenario after the most telling pre-existing state it contains
+// (the four states of the property's quantifier first).
+func c16Focus(states map[string]bool) string {
+	for _, k := range []string{"otherpkg", "prevrev", "foreign", "prevrev-released", "pkg-controls", "self", "self-plain", "uncontrolled", "uncontrolled+pkg", "absent"} {
+		if states[k] {
+			switch k {
+			case "foreign", "pkg-controls":
+				return "other-controller"
+			case "self", "self-plain":
+				return "self"
+			case "uncontrolled+pkg":
+				return "uncontrolled"
+			}
+			return k
+		}
 	}
-	return s, fmt.Sprintf("est/ctl=%v/%s%s/%s/pre=%s", s.Control, c, d, fk, c16StateNames(states))
+	return "preexisting"
 }
 
 func c16GenRelease(r *Rng, store *[]c16Obj) (c16Step, string) {
@@ -990,13 +1012,13 @@ func c16GenRelease(r *Rng, store *[]c16Obj) (c16Step, string) {
 		}
 	}
 	if n == 0 {
-		return s, "trivial/rel/empty"
+		return s, "trivial/empty"
 	}
-	c := "seq"
-	if s.Conc > 1 {
-		c = "conc"
+	f := "clean"
+	if fk != "none" {
+		f = "faulty"
 	}
-	return s, fmt.Sprintf("rel/%s/%s/pre=%s", c, fk, c16StateNames(states))
+	return s, fmt.Sprintf("rel/%s", f)
 }
 
 // c16GenHistory: upgrade / rollback sequences of the revisions of a package (and
@@ -1074,7 +1096,22 @@ func c16GenHistory(r *Rng) (c16Scn, string) {
 		}
 		scn.Steps = append(scn.Steps, s)
 	}
-	cls := fmt.Sprintf("hist/other=%v/faulty=%v/racing=%v/rollback=%v", other, faulty, racing, rollback)
+	kind := "upgrade"
+	if rollback {
+		kind = "rollback"
+	}
+	if racing {
+		kind = "two-active"
+	}
+	f := "clean"
+	if faulty {
+		f = "faulty"
+	}
+	cls := fmt.Sprintf("hist/%s/%s", kind, f)
+	if kind != "upgrade" {
+		cls = "hist/" + kind
+	}
+	_ = other
 	return scn, cls
 }
 
@@ -1104,10 +1141,45 @@ func init() {
 				c.Emit(s, obs, mons, "corpus")
 			}
 		}
+		every := 40
+		if c.Tier == "thorough" {
+			every = 15
+		}
 		for i := 0; i < c.N; i++ {
 			s, cls := c16Gen(c.Rng)
+			base := mustJSON(s)
 			obs, mons := c16Run(&s)
 			c.Emit(s, obs, mons, cls)
+			// exhaustive small scope: every single fault (object x phase x outcome) on the
+			// last step of this scenario, when that step runs sequentially
+			if i%every != 0 {
+				continue
+			}
+			last := s.Steps[len(s.Steps)-1]
+			n := len(last.Objs)
+			if last.Op == "release" {
+				n = len(last.Refs)
+			} else if last.Op == "reconcile" && n < 4 {
+				n = 4 // the step may release up to four recorded references instead
+			}
+			for fi := 0; fi < n; fi++ {
+				for _, ph := range []string{"get", "dry", "real"} {
+					if ph == "dry" && last.Op == "release" {
+						continue
+					}
+					for _, out := range []string{"fail", "conflict", "crashBefore", "crashAfter"} {
+						var v c16Scn
+						if err := jsonUnmarshalStrict([]byte(base), &v); err != nil {
+							continue
+						}
+						ls := &v.Steps[len(v.Steps)-1]
+						ls.Conc = 1
+						ls.Faults = []c16Fault{{I: fi, Phase: ph, Out: out}}
+						o2, m2 := c16Run(&v)
+						c.Emit(v, o2, m2, "exh/"+last.Op)
+					}
+				}
+			}
 		}
 	})
 }
